@@ -293,28 +293,29 @@ def _reschedule(ctx, master):
     nz = N.Normaliser()
     graph, ops = M.record_ops(ctx, func)
     facts = N.must_facts(graph, nz)
-    want_del = {
-        N.Atom(('truth', 'before', True)),
-        N.cmp_atom(ast.Name(id='before'), '!=', ast.Name(id='after')),
-    }
     for node, op, rec, _call in ops:
         loop = K.enclosing_for(graph, node)
         names = N.for_targets(loop) if loop is not None else set()
+        bname, aname = M.before_after(loop)
+        want_del = {
+            N.Atom(('truth', bname, True)),
+            N.cmp_atom(ast.Name(id=bname), '!=', ast.Name(id=aname)),
+        }
         mine = set(f for f in N.raw_only(facts[node])
                    if f.mentions & names)
         if op == 'delete':
             ctx.ob('C09.3', func, node, mine == want_del,
                    'old record removed exactly under `before and before != '
                    'after` (facts: %s)' % sorted(N.show(f) for f in mine))
-            ctx.ob('C09.3', func, node, rec[0] == 'before',
+            ctx.ob('C09.3', func, node, rec[0] == bname,
                    'the record removed is the one under the old server',
                    construct='delete path server = before')
         else:
-            ok = mine == {N.Atom(('truth', 'after', True))}
+            ok = mine == {N.Atom(('truth', aname, True))}
             ctx.ob('C09.3', func, node, ok,
                    'new record created exactly under `after` (facts: %s)' %
                    sorted(N.show(f) for f in mine))
-            ctx.ob('C09.3', func, node, rec[0] == 'after',
+            ctx.ob('C09.3', func, node, rec[0] == aname,
                    'the record is created under the new server',
                    construct='put path server = after')
         if loop is not None:
